@@ -1,5 +1,5 @@
 (* Correspondence entry point for C15: the same checker as C03 (one model, two property files);
    the c15 driver generates address-centred schedules and judges them with the C15 specification oracle. *)
-From Hop Require Export PacketCorr.
+From Hop Require Export PacketCorr RecvLoopCorr.
 Definition c15_ok := c03_ok.
 Definition c15x_ok := c03x_ok.
